@@ -98,7 +98,7 @@ B("c05-backup-after-yield", ["C05", "C06"], INIT, "    backup_data = str(simfile
 B("c05-output-target-swapped", "C05", INIT, "            output_filename or input_filename, \"w\"", "            input_filename or output_filename, \"w\"", "target")
 B("c05-extra-write-dir", "C05", DIR, "        self._ignore_duplicate = ignore_duplicate\n\n        for simfile_item", "        self._ignore_duplicate = ignore_duplicate\n        with self.filesystem.open(self._path.join(simfile_dir, \".scanned\"), \"w\") as marker:\n            marker.write(\"1\")\n\n        for simfile_item", "write effect")
 B("c05-os-remove", "C05", ASSETS, "    def _get_case_insensitive_path(self, path: str) -> Optional[str]:\n", "    def _get_case_insensitive_path(self, path: str) -> Optional[str]:\n        if path.endswith(\".tmp\"):\n            os.remove(path)\n", "write effect")
-B("c05-open-explicit-encoding-ignored", "C05", INIT, "        try_encodings = [kwargs.pop(\"encoding\")]", "        try_encodings = ENCODINGS + [kwargs.pop(\"encoding\")]", "try_encodings")
+B("c05-open-explicit-encoding-ignored", "C05", INIT, "        try_encodings = [kwargs.pop(\"encoding\")]", "        try_encodings = ENCODINGS + [kwargs.pop(\"encoding\")]", "tried encodings")
 B("c05-read-mode-plus", "C05", INIT, "with filesystem.open(filename, \"r\", encoding=encoding, **kwargs) as file:", "with filesystem.open(filename, \"r+\", encoding=encoding, **kwargs) as file:", None)
 B("c06-swallow-exception", "C06", INIT, "    except:\n        raise\n    else:", "    except Exception:\n        return\n    else:", "re-raises")
 B("c06-cancel-falls-through-to-write", "C06", INIT, "    except CancelMutation:\n        return  # Don't re-raise\n    except:\n        raise\n    else:\n        # No exception was caught, so write the output file(s)\n", "    except CancelMutation:\n        pass\n    except:\n        raise\n    if True:\n        # No exception was caught, so write the output file(s)\n", None)
@@ -364,3 +364,16 @@ P("p-coalesce-cache-correct", ["C11", "C13"], [(ENGINE, '''            if warp_s
                 warp_ends.append(BeatValue(beat=warp_end, value=zero))
                 last_warp_end = warp_end'''), (ENGINE, "        warp_ends = BeatValues()\n        for warp_ in", "        warp_ends = BeatValues()\n        last_warp_end = None\n        for warp_ in")])
 P("p-keysound-list-comprehension", ["C07", "C08"], [(NOTES, "            keysound_indices: List[Optional[int]] = [None] * self._columns\n", "            keysound_indices: List[Optional[int]] = [None] * max(self._columns, 1)\n")])
+
+# variants for the clauses added after the first seeded batch
+B("c01-str-stripped", ["C01", "C04", "C05"], "simfile/_private/serializable.py", "        return serialized.getvalue()", "        return serialized.getvalue().strip()", "str(x)")
+B("c03-peek-first-line-only", "C03", INIT, '            string="".join(peek_file),', '            string=peek_file.readline(),', "complete text")
+B("c03-copy-partial", "C03", INIT, 'file, peek_file = [StringIO("".join(f)) for f in tee(file)]', 'file, peek_file = [StringIO("".join(f).lstrip()) for f in tee(file)]', "complete text")
+B("c07-columns-constant", "C07", NOTES, "        self._columns = NoteData._get_columns(self._notedata)", "        self._columns = 4 if not self._notedata else NoteData._get_columns(self._notedata)", "column count")
+B("c09-close-needs-both", "C09", GROUP, "            if note.column in held_columns or note.note_type == NoteType.TAIL:", "            if note.column in held_columns and note.note_type == NoteType.TAIL:", "closed or interrupted")
+B("c09-only-hold-heads-held", "C09", GROUP, "            if note.note_type in (NoteType.HOLD_HEAD, NoteType.ROLL_HEAD):\n                held_columns[note.column] = note", "            if note.note_type in (NoteType.HOLD_HEAD,):\n                held_columns[note.column] = note", "open a column")
+B("c09-buffer-inverted", "C09", GROUP, "        if held_columns:\n            buffer.append(note)", "        if not held_columns:\n            buffer.append(note)", "buffered")
+B("c09-mine-does-not-interrupt", "C09", GROUP, "        if not maybe_tail or maybe_tail.note_type != NoteType.TAIL:", "        if not maybe_tail or maybe_tail.note_type not in (NoteType.TAIL, NoteType.MINE):", None)
+B("c09-join-extra-condition", "C09", GROUP, "    if join_heads_to_tails:\n        notes_maybe_with_tails = join_heads_to_tails_(notes)", "    if join_heads_to_tails and NoteType.TAIL in include_note_types:\n        notes_maybe_with_tails = join_heads_to_tails_(notes)", "exactly when join_heads_to_tails")
+B("c07-keysound-list-hoisted", ["C07", "C08"], NOTES, "        for l, line in enumerate(lines):\n            line = line.strip()\n            keysound_indices: List[Optional[int]] = [None] * self._columns\n", "        keysound_indices: List[Optional[int]] = [None] * self._columns\n        for l, line in enumerate(lines):\n            line = line.strip()\n", "afresh")
+B("c11-coalesce-stale-cache", ["C11", "C13"], ENGINE, "                last_warp_end: Beat = warp_ends[-1].beat\n", "                last_warp_end: Beat = warp_ends[0].beat\n", "boundary")
